@@ -216,12 +216,14 @@ class Runner:
         self.trace.append({"op": op})
         name = op["op"]
         if name == "add":
-            w.add(op["ver"], op["ck"], op["inserts"], op["fail_at"])
+            w.add(op["ver"], op["ck"], op["inserts"], op["fail_at"], op.get("empty"))
             self.sync_dir()
             top = op["ver"] == max(w.ever)
             if op["ck"]:
                 ctx.count("checkpoint-directive-on-header-line:%d" % (len(L.CK_HEADERS[int(op["ver"]) % len(L.CK_HEADERS)])))
             ctx.count("op:add-%s%s%s" % ("checkpoint" if op["ck"] else "file", "-on-top" if top else "-out-of-order", "-failing" if op["fail_at"] else ""))
+            if op.get("empty"):
+                ctx.count("op:add-statement-less-%s:%s" % ("checkpoint" if op["ck"] else "file", w.files[op["ver"]]["empty"]))
         elif name == "fix":
             w.fix(op["ver"])
             self.sync_dir()
@@ -338,6 +340,10 @@ class Runner:
             ctx.count("apply-with-out-of-order-files:" + op["order"])
         if any(self.w.files[v]["ck"] for v in exp["todo"]):
             ctx.count("apply-runs-checkpoint")
+        if any(self.w.files[v].get("empty") for v in exp["todo"]):
+            ctx.count("apply-runs-statement-less-file")
+            if op["n"] and len(exp["pending"]) > op["n"]:
+                ctx.count("apply-n-counts-statement-less-file")
         if any(L.World.is_partial(r) for r in w.revs.values()) and exp["class"] == "stmtfail":
             ctx.count("apply-leaves-partial")
         if op["n"] and len(exp["pending"]) > op["n"]:
@@ -359,7 +365,9 @@ class Runner:
     def run(self):
         try:
             for op in self.case["init"]:
-                self.w.add(op["ver"], op["ck"], op["inserts"], op["fail_at"])
+                self.w.add(op["ver"], op["ck"], op["inserts"], op["fail_at"], op.get("empty"))
+                if op.get("empty"):
+                    self.ctx.count("init-statement-less-file:%s" % self.w.files[op["ver"]]["empty"])
             self.sync_dir()
             if self.w.predirty:  # a database that already holds a table Atlas does not know
                 con = sqlite3.connect(self.db)
@@ -395,7 +403,7 @@ def main():
     nops = ctx.pick(8, 10)
     cases = []
     for i in range(nseq):
-        predirty, init = L.gen_init(ctx.rand("c11", "init", i))
+        predirty, init = L.gen_init(ctx.rand("c11", "init", i), i)
         cases.append({"seq": i, "len": nops, "predirty": predirty, "init": init})
 
     def work(cs):
